@@ -398,3 +398,63 @@ func GenProtectedElasticScript(t *rapid.T, prop string, o GenOpts) *Script {
 	}
 	return s
 }
+
+// GenDeepTreeReclaimScript: a directed profile for C06. A queue tree four to six levels deep with leaves at uneven
+// depth and minimum runtimes set at arbitrary levels (a leaf overriding its ancestors with a smaller or larger value),
+// one node full of running single-pod 1-GPU workloads that started some seconds to some hours ago, and pending
+// workloads in other leaves: which minimum runtime protects a victim depends on where reclaimer and victim diverge.
+func GenDeepTreeReclaimScript(t *rapid.T, prop string, o GenOpts) *Script {
+	s := &Script{Prop: prop, Profile: "deep-queue-tree-min-runtime"}
+	s.MapSeed = rapid.Uint64Range(1, 1<<62).Draw(t, "mapseed")
+	s.Config = genConfig(t, o)
+	s.Config.Actions = []string{"allocate", "consolidation", "reclaim", "preempt", "stalegangeviction"}
+	g := int64(pick(t, "dtgpus", 4, 6, 8))
+	s.World.Nodes = []NodeSpec{{Name: "n0", CPUm: 64000, MemMi: 262144, Pods: 110, GPUs: g}}
+	unl := QRes{Quota: -1, Limit: -1, Weight: 1}
+	depth := rapid.IntRange(4, 6).Draw(t, "dtdepth")
+	var leaves []string
+	var build func(name, parent string, level int)
+	build = func(name, parent string, level int) {
+		q := QueueSpec{Name: name, Parent: parent, CPU: unl, Mem: unl, GPU: QRes{Quota: float64(g), Limit: -1, Weight: 1}}
+		if chance(t, "dtmr", 45) {
+			q.ReclaimMinRuntime = pick(t, "dtrmr", "0s", "30s", "10m", "2h")
+		}
+		if chance(t, "dtpmr", 25) {
+			q.PreemptMinRuntime = pick(t, "dtpmrv", "0s", "30s", "10m", "2h")
+		}
+		leaf := level >= depth || (level >= 2 && chance(t, "dtleaf", 25))
+		if leaf {
+			q.GPU.Quota = float64(rapid.IntRange(0, 2).Draw(t, "dtquota"))
+			leaves = append(leaves, name)
+			s.World.Queues = append(s.World.Queues, q)
+			return
+		}
+		s.World.Queues = append(s.World.Queues, q)
+		for c := 0; c < rapid.IntRange(1, 2).Draw(t, "dtkids"); c++ {
+			build(fmt.Sprintf("%s%c", name, 'a'+c), name, level+1)
+		}
+	}
+	build("t", "", 1)
+	if len(leaves) < 2 { // a second branch so that there is somebody to reclaim from
+		s.World.Queues = append(s.World.Queues, QueueSpec{Name: "tz", Parent: "t", CPU: unl, Mem: unl, GPU: QRes{Quota: 1, Limit: -1, Weight: 1}})
+		leaves = append(leaves, "tz")
+	}
+	s.World.PriorityClasses = []PriorityClassSpec{{"train", 50}, {"build", 100}, {"inference", 125}, {"low", 25}}
+	for i := 0; i < int(g); i++ {
+		w := WorkloadSpec{Name: fmt.Sprintf("r%d", i), Queue: pick(t, "dtrq", leaves...), MinMember: 1, PriorityClass: pick(t, "dtrpc", "train", "train", "low"), AgeSec: int64(rapid.IntRange(1, 5000).Draw(t, "dtrage"))}
+		ago := int64(pick(t, "dtstart", 5, 20, 45, 300, 900, 5000, 10000))
+		w.LastStartAgo = &ago
+		w.Pods = []PodSpec{{Name: fmt.Sprintf("r%d-p0", i), CPUm: 100, MemMi: 128, GPUs: 1, State: "running", Node: "n0"}}
+		s.World.Workloads = append(s.World.Workloads, w)
+	}
+	for i := 0; i < rapid.IntRange(1, 3).Draw(t, "dtpending"); i++ {
+		w := WorkloadSpec{Name: fmt.Sprintf("p%d", i), Queue: pick(t, "dtpq", leaves...), MinMember: 1, PriorityClass: pick(t, "dtppc", "train", "build", "inference"), AgeSec: int64(rapid.IntRange(1, 5000).Draw(t, "dtpage"))}
+		w.Pods = []PodSpec{{Name: fmt.Sprintf("p%d-p0", i), CPUm: 100, MemMi: 128, GPUs: 1, State: "pending"}}
+		s.World.Workloads = append(s.World.Workloads, w)
+	}
+	s.Ops = []Op{{Kind: "cycle"}, {Kind: "binder"}, {Kind: "kubelet"}}
+	for c := 0; c < rapid.IntRange(0, 2).Draw(t, "dtmore"); c++ {
+		s.Ops = append(s.Ops, Op{Kind: "advance", N: pick(t, "dtadv", 1, 20, 61, 600)}, Op{Kind: "recreate"}, Op{Kind: "cycle"}, Op{Kind: "binder"}, Op{Kind: "kubelet"})
+	}
+	return s
+}
